@@ -474,7 +474,53 @@ def run_canon(case):
             "fails": fails}
 
 
+def run_big(case):
+    """('big', class, n): maps with n names (beyond small-integer and small-table thresholds): the same laws."""
+    _, cname, n = case
+    cls = {"CaselessDict": CaselessDict, "Parameters": Parameters, "Event": Event}[cname]
+    fails = []
+    names = [f"x-name-{i:04d}" for i in range(n)]
+    d = cls()
+    for i, k in enumerate(names):
+        d[k if i % 2 else k.upper()] = i
+    ref = {k.upper(): i for i, k in enumerate(names)}
+
+    def chk(label, want, got):
+        if want != got:
+            fails.append({"cls": "big-map:" + label, "case": case, "expected": want, "observed": got})
+    chk("len", n, len(d))
+    chk("keys", list(ref), list(d.keys()))
+    same = cls()
+    for k in reversed(names):
+        same[k.capitalize()] = ref[k.upper()]
+    others = [(same, "same class, reverse insertion"), (d.copy(), "copy")]
+    if cname != "Event":  # equality of a component with a non-component mapping is C20's business
+        others += [(dict(ref), "dict upper"), ({k.lower(): v for k, v in ref.items()}, "dict lower")]
+    for other, label in others:
+        chk("equal:" + label, (True, False), (d == other, d != other))
+        chk("equal-reflected:" + label, (True, False), (other == d, other != d))
+    if n:
+        changed = dict(ref)
+        changed[names[n // 2].upper()] = -1
+        missing = dict(ref)
+        del missing[names[-1].upper()]
+        renamed = dict(missing)
+        renamed["ZZ-OTHER"] = ref[names[-1].upper()]
+        for other, label in ((changed, "one value changed"), (missing, "one name missing"), (renamed, "one name renamed")):
+            if cname == "Event":
+                other = Event(other)
+            chk("unequal:" + label, (False, True), (d == other, d != other))
+        chk("get-last", n - 1, d.get(names[-1].upper()))
+        chk("contains-lower", True, names[n // 2].lower() in d)
+        chk("sorted_keys", sorted(ref), d.sorted_keys() if cname != "Event" else sorted(d.sorted_keys()))
+        chk("pop-first", 0, d.pop(names[0]))
+        chk("len-after-pop", n - 1, len(d))
+    return {"state": ("big", cname, n, not fails), "trans": 20, "nontrivial": n > 1, "outcome": "big-ok" if not fails else "FAIL", "fails": fails}
+
+
 def replay(case):
+    if case[0] == "big":
+        return run_big(case)
     if case[0] == "canon":
         return run_canon(case)
     _, cname, hist, op = case
@@ -520,3 +566,10 @@ def run(ctx):
     ctx.bounds = {"classes": list(CLASSES), "keys_per_class": 5, "values": list(VALUES),
                   "search": "fixpoint (complete reachability over the alphabet)", "bfs_states": total_states}
     ctx.explore("canonical-order", canon_cases, run_canon, jobs=min(ctx.jobs, 8))
+
+    def gen_big():
+        for cname in ("CaselessDict", "Parameters", "Event"):
+            for n in list(range(0, 20)) + [63, 64, 65, 127, 128, 129, 255, 256, 257, 258, 300, 511, 512, 513, 1000, 1023, 1024, 1025, 4096, 5000]:
+                yield ("big", cname, n)
+
+    ctx.explore("maps with many names", gen_big, run_big, jobs=min(ctx.jobs, 8))
